@@ -77,13 +77,24 @@ func C02_History() {
 // C02_ShapeStep: after one Set/Remove from every AVL+ state the implementation tree is
 // isomorphic to the reference step (keys, heights, sizes, which nodes are new) and hashes agree.
 func C02_ShapeStep() {
-	cfg := &vHistCfg{name: "C02_ShapeStep", lenVars: 1, valVars: 1, caches: []int{0, 10000}, fast: []bool{false}, thresh: []int{0}, refHash: true, iso: true}
+	cfg := &vHistCfg{name: "C02_ShapeStep", lenVars: 1, valVars: 1, caches: []int{0}, fast: []bool{false}, thresh: []int{0}, refHash: true, iso: true}
 	maxH := 3
 	if vTier() == "thorough" {
 		maxH = 4
 		cfg.caches = []int{0}
 	}
 	h := vShapeState(cfg, maxH, 1, []int{0, 1, 2})
+	// a read-only call before the step must not change any later hash (it caches node hashes)
+	if h.p.n > 0 {
+		switch vChoice("readbefore", 3) {
+		case 1:
+			h.tree.WorkingHash()
+		case 2:
+			if h.tree.root != nil {
+				h.tree.GetProof(h.p.keys[0])
+			}
+		}
+	}
 	if h.p.n > 0 {
 		switch vChoice("op", 2) {
 		case 0:
@@ -190,4 +201,46 @@ func C02_RollbackRedo() {
 	}
 	h.audit()
 	vCover("redone")
+}
+
+var _ = vReg("C02_Placements", C02_Placements)
+
+// C02_Placements: the hash of later commits is the canonical one wherever a deletion of old versions,
+// an export/import or a reopen is placed in the history.
+func C02_Placements() {
+	cfg, maxV, maxW := c04cfg("C02_Placements")
+	cfg.thresh = []int{0}
+	cfg.caches = []int{0}
+	cfg.auditOld = true
+	cfg.refHash = true
+	cfg.iso = false
+	h := vStartHist(cfg)
+	h.vBuildVersions(maxV, maxW)
+	switch vChoice("placement", 3) {
+	case 0:
+		h.doPrune()
+	case 1:
+		h.doExportImport()
+		vCover("imported")
+	case 2:
+		h.doReopen()
+	}
+	for r := 0; r < 2; r++ {
+		c := vChoice("then", 2*h.p.n+1)
+		if c > 0 {
+			if c-1 < h.p.n {
+				h.doSet(c - 1)
+			} else {
+				h.doRemove(c - 1 - h.p.n)
+			}
+		}
+		h.doCommit()
+	}
+	h.audit()
+	if h.fastOn {
+		c07Coherent(h, "placements")
+		c07Raw(h, "placements")
+	}
+	vAuditStore(h, "placements", h.fastOn)
+	vCover("placed")
 }
